@@ -25,6 +25,11 @@ func getParser(br *bufio.Reader, file string) parser.Parser {
 
 func setDefineInfos(p *parser.Parser) {
 	for _, article := range eval.DefineInfoArticles {
+		// definitions that came from preloaded files are not hints for this file
+		if article.P.FileName != p.FileName {
+			continue
+		}
+
 		ctx := article.Ctx
 
 		methodT := article.MethodT
